@@ -398,8 +398,66 @@ pub fn gen_predefined_name_cases(rng: &mut Rng, out: &mut Vec<String>) {
     }
 }
 
+/// Hand-written VALID corner programs (comments between a keyword and the name it introduces, a parameter named
+/// like its procedure, leading white space in front of the first token, `==`-free operators next to each other,
+/// nested calls and indices), probed at every identifier start, at 0:0 / 0:1 and behind every `(` and `,`;
+/// with the specification twins.
+pub fn gen_corner_docs(rng: &mut Rng, which: usize, out: &mut Vec<String>) {
+    let text = match which % 8 {
+        0 => "// about foo\nproc // the helper\n  foo(foo: int, ref bar: int) {\n  bar := foo + 1;\n}\nproc main() {\n  var foo: int;\n  foo(1, foo);\n}\n".to_string(),
+        1 => "\n\n   proc main() {\n  var x: int;\n  x := 1;\n}\n".to_string(),
+        2 => "\r\n\r\n\tproc p(a: int) { }\r\nproc main() { p(1); }\r\n".to_string(),
+        3 => "type // t is\n  // a vector\n  vec = array [3] of int;\nproc sum(ref // the vector\n v: vec, n: int) {\n  var // running\n  // total\n  s: int;\n  s := v[n] + n;\n}\nproc main() { var w: vec; sum(w, 2); }\n".to_string(),
+        4 => "proc f(a: int, b: int) { }\nproc g(ref a: int) { a := 1; }\nproc main() {\n  var v: array [4] of int;\n  var i: int;\n  f(v[v[i]], -(i));\n  g(v[i + 1]);\n  f((1), 2 * (3 + i));\n}\n".to_string(),
+        5 => "proc count(count: int) { count := count - 1; }\ntype t = int;\nproc main() { var t: int; var count: t; t := 1; count := t; count(count); }\n".replace("count(count); }", "}").to_string(),
+        6 => " \t proc main ( ) { ; ; }\n\n\n".to_string(),
+        _ => "proc a() { }\nproc b() { a(); }\nproc main() {\n  // one\n  // two\n  // three\n  a();\n  // x\n\n  // y\n  b();\n}\n// the end\n// of it\n".to_string(),
+    };
+    let h = hex_str(&text);
+    out.push(format!("NEW {}", h));
+    for op in ["FOLD", "SEM"] {
+        out.push(format!("{} {}", op, h));
+        out.push(format!("SPEC{} {}", op, h));
+    }
+    out.push(format!("JUDGESEM {}", h));
+    out.push(format!("FMT {} 1 {}", h, rng.below(9)));
+    let bytes = text.as_bytes();
+    let mut pos: Vec<(u32, u32)> = vec![(0, 0), (0, 1), (1, 0)];
+    for i in 0..bytes.len() {
+        let is_id = |c: u8| c.is_ascii_alphanumeric() || c == b'_';
+        if is_id(bytes[i]) && (i == 0 || !is_id(bytes[i - 1])) {
+            pos.push(lsp_pos(&text, i + rng.below(2)));
+        }
+        if bytes[i] == b'(' || bytes[i] == b',' {
+            pos.push(lsp_pos(&text, i + 1));
+        }
+    }
+    for (l, c) in pos {
+        for k in ["decl", "typedef", "impl"] {
+            out.push(format!("GOTO {} {} {} {}", k, h, l, c));
+            out.push(format!("SPECGOTO {} {} {} {}", k, h, l, c));
+        }
+        for op in ["HOV", "REFS", "PREP", "SIG"] {
+            out.push(format!("{} {} {} {}", op, h, l, c));
+            out.push(format!("SPEC{} {} {} {}", op, h, l, c));
+        }
+        out.push(format!("COMP {} {} {}", h, l, c));
+        out.push(format!("REN {} {} {} {}", h, l, c, hex_str("renamed_1")));
+        out.push(format!("SPECREN {} {} {} {}", h, l, c, hex_str("renamed_1")));
+    }
+}
+
 pub fn gen_feature_cases(rng: &mut Rng, n: usize, ops: &[&str], broken_pct: usize, out: &mut Vec<String>) {
     for i in 0..n {
+        if i % 25 == 7 {
+            let mut tmp = vec![];
+            gen_corner_docs(rng, i / 25, &mut tmp);
+            out.extend(tmp.into_iter().filter(|l| {
+                let op = l.split(' ').next().unwrap_or("");
+                let base = op.strip_prefix("SPEC").unwrap_or(op);
+                op == "NEW" || ops.contains(&op) || (op.starts_with("SPEC") && ops.contains(&base)) || (op == "JUDGESEM" && ops.contains(&"SEM"))
+            }));
+        }
         if i % 25 == 13 {
             // redeclared predefined / user names: the handlers of this run on such a document
             let mut tmp = vec![];
@@ -694,6 +752,8 @@ pub fn gen_c16(rng: &mut Rng, n: usize, out: &mut Vec<String>) {
                 // the closing brace of a body/block: a new statement could start here
                 Some("stmt")
             } else if t.gap == "after-colon" {
+                // behind `:` of a parameter / variable (positions behind `of` / `=` of a type are outside the
+                // property's quantifier: the correspondence with the model covers them)
                 Some("type")
             } else if t.gap == "decl-start" && k > 0 {
                 Some("top")
